@@ -251,25 +251,67 @@ fn lattice_vec(dim: usize, i: usize, salt: usize) -> Vec<u32> {
 }
 
 fn finish(report: &mut Report, property: &'static str, scenarios: Vec<Scenario>, secs: u64, rule: &str) {
+    run_into(report, property, scenarios, secs, false);
+    report.cov("oracle", rule);
+}
+
+/// Runs a scenario family; `additive` adds its builds to the states / transitions already
+/// recorded by other engines of the same check instead of defining them.
+pub fn run_into(report: &mut Report, property: &'static str, scenarios: Vec<Scenario>, secs: u64, additive: bool) {
     let n = scenarios.len();
     let sample = scenarios.first().map(|s| s.to_json());
     let sys = ScenarioSys { scenarios, property };
-    // shuffle-free but interleaved job order is the enumeration order; every job is independent
     let caps = Caps { max_transitions: 10_000_000, max_wall: Duration::from_secs(secs), max_signatures: 8 };
     let o = explore(&sys, &caps);
     eprintln!("[{property}] scenarios={n} counters={:?} cap={:?} violations={}", o.counters, o.cap_hit, o.violations.len());
+    let before_states = report.coverage.get("states").and_then(|v| v.as_u64()).unwrap_or(0);
+    let before_transitions = report.coverage.get("transitions").and_then(|v| v.as_u64()).unwrap_or(0);
+    let before_traces = report.coverage.get("traces_validated_against_impl").and_then(|v| v.as_u64()).unwrap_or(0);
     record(report, "scenarios", &o);
     // model-checking vocabulary: a state = a judged built index, a transition = a build
     let builds = o.counters.get("builds").copied().unwrap_or(0);
-    report.cov("states", builds.max(1));
-    report.cov("transitions", builds.max(1));
-    report.cov("traces_validated_against_impl", builds);
+    if additive {
+        report.cov("states", before_states + builds);
+        report.cov("transitions", before_transitions + builds);
+        report.cov("traces_validated_against_impl", before_traces + builds);
+    } else {
+        report.cov("states", builds.max(1));
+        report.cov("transitions", builds.max(1));
+        report.cov("traces_validated_against_impl", builds);
+    }
     report.cov("scenarios_total", n as u64);
     report.cov("scenarios_completed", o.counters.get("scenarios").copied().unwrap_or(0));
-    report.cov("oracle", rule);
     if let Some(s) = sample {
         report.sample(s);
     }
+}
+
+/// C01 under the memory hint: a few bulk scenarios (more than 200 items, tight hints, an
+/// incremental round) judged by the structure oracle.
+pub fn c01_memory_scenarios(tier: Tier) -> Vec<Scenario> {
+    let page = 4096usize;
+    let mut out = Vec::new();
+    let metrics: Vec<Metric> = if tier == Tier::Quick { vec![Metric::Euclidean] } else { M7.to_vec() };
+    for metric in metrics {
+        for (dim, n, cap, t) in [(2usize, 230usize, None, 2usize), (2, 450, Some(64), 1), (130, 260, Some(220), 2)] {
+            let items: Vec<(u32, Vec<u32>)> = (0..n).map(|i| (i as u32, lattice_vec(dim, i, 7))).collect();
+            out.push(Scenario {
+                label: format!("c01-memory-{}-d{dim}-n{n}", metric.short()),
+                metric,
+                dim,
+                items,
+                round2_del: (0..n as u32).step_by(3).collect(),
+                round2_add: (0..260).map(|i| (30_000 + i as u32, lattice_vec(dim, i, 8))).collect(),
+                n_trees: Some(t),
+                split_after: cap,
+                memories: vec![None, Some(0), Some(2 * page), Some(n * (5 + 4 * dim) / 2)],
+                seed: crate::common::verif_seed(),
+                judge_distances: true,
+                horizon: 0,
+            });
+        }
+    }
+    out
 }
 
 // ------------------------------------------------------------------------------------------
